@@ -71,4 +71,18 @@ PROPS = {
         "trusted_base": ["elements are abstracted to (identity, reported hash): lp_polynomial_eq/lp_polynomial_hash themselves belong to C18"],
         "assumptions": [],
     },
+    "C01": {
+        "level": "proof",
+        "lean_targets": ["LP.Props.C01"],
+        "harnesses": [{"name": "h_poly", "quick": 40000, "thorough": 600000}],
+        "select": lambda t: t[1] in ("poly", "up"),
+        "nontrivial": lambda t, r: len(r) > 0 and ("+" in r[0] or "," in r[0] or t[2] in ("evalint", "evalrat")),
+        "rule": "random multivariate polynomials (1-4 variables, degree <= 3 per variable, <= 5 terms, small and multi-limb coefficients, "
+                "cancellation pairs p / -p+small) and univariate polynomials (degree <= 6) over Z, Z_5, Z_13, Z_2, Z_6, Z_8, Z_101 and a "
+                "multi-limb modulus; operations add/sub/mul/neg/mul_integer/pow/add_mul/sub_mul/shl/derivative/add_monomial/assign/"
+                "evaluate/convert with destinations fresh, constant, unrelated polynomial, alias of either operand, and in-place growth "
+                "after cancellation. Non-trivial = result with at least two terms or an evaluation; distinct = distinct line.",
+        "trusted_base": ["operands are read back through lp_polynomial_traverse / lp_upolynomial_unpack (the same API users see)"],
+        "assumptions": ["shift only by the main variable of a non-constant polynomial (documented precondition)"],
+    },
 }
